@@ -523,7 +523,11 @@ func cmdCheck(args []string) {
 			continue
 		}
 		for _, o := range f.res.Obls {
-			if !o.Passed() && !o.ExpectSat && (o.Kind == "inv-init" || o.Kind == "inv-preserved" || o.Kind == "decreases") {
+			// only inv-init: the code before the loop no longer establishes what the annotation says, i.e. the
+			// annotation describes a loop that was set up differently. An invariant that holds on entry and
+			// is broken by the body (inv-preserved) stays a violation: that is how a change of the loop's
+			// behaviour on an input no finite universe contains (a magic key) is caught.
+			if !o.Passed() && !o.ExpectSat && o.Kind == "inv-init" {
 				brokenProof[f] = true
 			}
 		}
@@ -574,7 +578,7 @@ func cmdCheck(args []string) {
 				// real code breaks its contract: the proof has to be redone for the rewritten loop. The
 				// obligations after the loop were generated assuming that invariant, so none of them is
 				// evidence either way. Undecided; the bounded stand-ins decide on the real code.
-				fmt.Printf("UNDECIDED property=%s obligation=%s (a loop invariant of %s is no longer inductive and no failing input of the real code is known: the proof needs redoing)\n",
+				fmt.Printf("UNDECIDED property=%s obligation=%s (a loop invariant of %s does not hold on loop entry any more and no failing input of the real code is known: the loop was set up differently and its proof needs redoing)\n",
 					*prop, strings.ReplaceAll(o.Name, " ", "_"), f.key)
 				undecided++
 				continue
